@@ -72,6 +72,15 @@ const replayMaxLen = 1 << 22
 
 // expr builds a Go expression of type t for the model value rooted at name.
 func (g *replayGen) expr(name string, t types.Type, depth int) string {
+	if gs, ok := ghostStruct(t); ok {
+		switch gs {
+		case "time.Time":
+			v, _ := g.get(name + ".$0")
+			g.imports["time"] = true
+			return fmt.Sprintf("time.Unix(0, %d)", int64(v))
+		}
+		return g.typeStr(t) + "{}"
+	}
 	switch u := t.Underlying().(type) {
 	case *types.Basic:
 		switch {
@@ -126,7 +135,7 @@ func (g *replayGen) expr(name string, t types.Type, depth int) string {
 		var fs []string
 		for i := 0; i < u.NumFields(); i++ {
 			f := u.Field(i)
-			if _, isGhost := ghostStruct(f.Type()); isGhost {
+			if gs, isGhost := ghostStruct(f.Type()); isGhost && gs != "time.Time" {
 				continue
 			}
 			fs = append(fs, fmt.Sprintf("%s: %s", f.Name(), g.expr(name+"."+f.Name(), f.Type(), depth)))
@@ -143,7 +152,7 @@ func (g *replayGen) expr(name string, t types.Type, depth int) string {
 		if _, ok := u.Elem().Underlying().(*types.Struct); ok {
 			return "&" + g.expr(name+"->", u.Elem(), depth-1)
 		}
-		return fmt.Sprintf("verifPtr(%s)", g.expr(name+"->.$", u.Elem(), depth-1))
+		return fmt.Sprintf("func() %s { x := %s; return &x }()", g.typeStr(t), g.expr(name+"->", u.Elem(), depth-1))
 	case *types.Interface:
 		tid, _ := g.get(name + ".tid")
 		if tid == 0 {
